@@ -153,6 +153,8 @@ class FakeNet:
             raise BrokenPipeError(errno.EPIPE, "Broken pipe")
         if w == "sslerror":
             raise _ssl.SSLError("handshake failure")
+        if w == "valueerror":
+            raise ValueError("check_hostname requires server_hostname")
         raise OSError(errno.EIO, "injected I/O error")
 
     # ---- socket module API ---------------------------------------------------
@@ -194,6 +196,10 @@ class FakeNet:
 
     def open_sockets(self):
         return [s for s in self.sockets if not s.closed]
+
+
+class WrapperSocketError(OSError):
+    """the error class of a socket wrapper module (subclasses of OSError are not re-mapped to InterruptedError & co.)"""
 
 
 class FakeSocket:
@@ -258,7 +264,7 @@ class FakeSocket:
         if f is not None:
             self.net._raise(f, self)
         srv = self.net.server_for(addr)
-        if srv is None or getattr(srv, "down", None):
+        if srv is None or (getattr(srv, "down", None) and srv.down != "reset-recv"):
             kind = getattr(srv, "down", None) or "refused"
             self.net.fired.append({"fault": {"what": kind, "kind": "connect", "server_down": True}, "sock": self.id})
             self.faulted_in.add(self.net.call)
@@ -282,6 +288,13 @@ class FakeSocket:
         if not self.connected or self.dead:
             raise BrokenPipeError(errno.EPIPE, "Broken pipe")
         srv = getattr(self, "server", None)
+        if srv is not None and getattr(srv, "down", None) == "reset-recv":
+            # a proxy with a dead back-end: accepts the connection and the request, resets when the reply is awaited
+            net.fired.append({"fault": {"what": "reset", "kind": "recv", "server_down": True}, "sock": self.id})
+            self.faulted_in.add(net.call)
+            self.dead = True
+            self.rx.clear()
+            return
         if srv is not None and getattr(srv, "down", None):
             # the server died under an established connection
             self.dead = True
@@ -373,7 +386,16 @@ class FakeSocket:
             net.clock.advance(net.latency)      # the call spends time waiting for the network
         size, intr = net.next_piece()
         if intr:
-            raise InterruptedError(errno.EINTR, "Interrupted system call")
+            # an interrupted system call is reported as an OSError with errno EINTR; which class carries it depends on the
+            # socket layer (the builtin InterruptedError, a wrapper module's own error class, ssl.SSLError): rotate
+            net._eintr_n = getattr(net, "_eintr_n", 0) + 1
+            flavour = net._eintr_n % 3
+            if flavour == 1:
+                raise InterruptedError(errno.EINTR, "Interrupted system call")
+            if flavour == 2:
+                raise WrapperSocketError(errno.EINTR, "Interrupted system call")
+            import ssl
+            raise ssl.SSLError(errno.EINTR, "Interrupted system call")
         if not self.rx:
             if self.eof:
                 return b""
